@@ -539,6 +539,12 @@ func (c *ExpressionParser) performSyntaxAnalysisAtLevel6() error {
 		primitiveToken = NewExpressionToken(Function, primitiveToken.Value(), primitiveToken.Line(), primitiveToken.Column())
 	}
 
+	// A quoted name with nothing in it ("") does not name a variable
+	if primitiveToken.Type() == Variable && primitiveToken.Value().AsString() == "" {
+		return errors.NewSyntaxError("", errors.ErrErrorNear,
+			"Variable name cannot be empty", primitiveToken.Line(), primitiveToken.Column())
+	}
+
 	if primitiveToken.Type() == Constant {
 		c.moveToNextToken()
 		c.addTokenToResult(primitiveToken.Type(), primitiveToken.Value(), primitiveToken.Line(), primitiveToken.Column())
